@@ -37,6 +37,11 @@ def cases(tier, seed):
         for exp in ('none', 'future', 'expired'):
             for rev in (False, True):
                 cs.append({'t': 'real', 'key': k, 'exp': exp, 'rev': rev})
+    # the same with further identities added later that say nothing about expiry (and one added before, for the other order): the only expiry the
+    # key's self-signatures state stays in force
+    for j, k in enumerate(keys):
+        for exp in ('none', 'future', 'expired'):
+            cs.append({'t': 'real', 'key': k, 'exp': exp, 'rev': False, 'more': ['later', 'two-later', 'later-primary'][j % 3]})
     cs.append({'t': 'multi'})
     for k in keys[:4] if tier == 'quick' else keys:
         cs.append({'t': 'restate', 'key': k})
@@ -178,6 +183,14 @@ def _mk(name, exp, rev):
 
 def _real(ctx, d, pgpy, SI):
     k = _mk(d['key'], d['exp'], d['rev'])
+    if d.get('more'):
+        from pgpy.constants import KeyFlags, HashAlgorithm
+        from datetime import datetime, timezone
+        base = datetime(2015, 6, 1, tzinfo=timezone.utc)
+        for n in range(2 if d['more'] == 'two-later' else 1):
+            k.add_uid(pgpy.PGPUID.new('Identity added later %d' % n, email='later%d@example.org' % n), usage={KeyFlags.Sign, KeyFlags.Certify},
+                      hashes=[HashAlgorithm.SHA256], created=base + timedelta(days=30 * n), **({'primary': True} if d['more'] == 'later-primary' else {}))
+        ctx.count('keys_with_identities_silent_about_expiry')
     # export/import so that the verifier only has what a receiver would have
     pub = pgpy.PGPKey.from_blob(bytes(k.pubkey))[0]
     other = pool.pgpy_key('ed25519_2', uid='third party')
